@@ -2,7 +2,7 @@
 C09 — macro expansion follows C11 6.10.3 and terminates.
 
 Property theorems only; helper lemmas live in Lemmas/PPArgs.lean, Lemmas/PPLemmas.lean, Lemmas/PPTerm.lean,
-Lemmas/PPSubst.lean.  The model is Model/PP.lean (preprocess.c as it is now), the specification Spec/PPSpec.lean
+Lemmas/PPSubst.lean, and (termination for every table) Lemmas/C09Measure.lean, Lemmas/C09Subst.lean, Lemmas/C09Fuel.lean.  The model is Model/PP.lean (preprocess.c as it is now), the specification Spec/PPSpec.lean
 (C11 6.10.3.1–6.10.3.3 in the standard's phases, with placemarkers).
 -/
 import ChibiVerif.Model.PP
@@ -11,6 +11,7 @@ import ChibiVerif.Lemmas.PPArgs
 import ChibiVerif.Lemmas.PPLemmas
 import ChibiVerif.Lemmas.PPTerm
 import ChibiVerif.Lemmas.PPSubst
+import ChibiVerif.Lemmas.C09Fuel
 
 namespace ChibiVerif.Props.C09
 open ChibiVerif.PP
@@ -127,22 +128,66 @@ example : (expand 20 [("f", .fn ["x"] none [tk "x", tk "f"])]
 
 /-! ## termination -/
 
-/-- `bound(defs, input)`: fuel that suffices for an object-like table (`L` = longest replacement list,
+-- `fuelBound defs ts` (Lemmas/C09Fuel.lean) `= fuelE (maxBody defs) defs.length ts.length 0`: the bound for every table.
+-- `fuelE L j m x` (Lemmas/C09Measure.lean): work of `m` tokens that still have `j` macro names outside their hide sets,
+-- on top of inner work `x`, when no replacement list is longer than `L`:
+--   fuelE L 0 m x = m + x,   fuelE L (j+1) 0 x = x,
+--   fuelE L (j+1) (m+1) x = 1 + fuelE L (j+1) m (fuelE L j (L * (1 + fuelE L (j+1) m x)) 0).
+
+/-- **C09 (termination), every macro table.**  For every lexer used by `##`, every state — object-like, function-like,
+    variadic and built-in macros in any combination, replacement lists and input tokens with arbitrary hide sets —
+    and every input without directive lines, `preprocess2` (the rescanning loop, `expand_macro`, `subst` with `#`, `##`,
+    `__VA_OPT__`, and the recursive pre-expansion of arguments) finishes with output or a diagnostic as soon as it is
+    given `fuelBound defs input` units of fuel: a number computed from the table (number of entries, longest
+    replacement list) and the length of the input alone.
+    The measure (Lemmas/C09Measure.lean): the pending list is cut into ghost levels with growing sets of names that
+    every identifier and every `)` of the level hides; an expansion whose `)` comes from an outer level opens its new
+    level on top of *that* level, and the hide set `(hide(name) ∩ hide(')')) ∪ {name}` of `expand_macro` contains that
+    level's names plus the macro's own — the intersection never loses more.  Level lengths decrease
+    lexicographically; arguments handed to the nested `preprocess2` inherit a smaller vector. -/
+theorem C09_terminates (lx : String → LexOne) (st : St) (ts : List Tok) (fuel : Nat)
+    (hnh : NoHash ts) (hfuel : fuelBound st.defs ts ≤ fuel) :
+    preprocess2 lx fuel st ts ≠ .error .fuel :=
+  (preprocess2_fuelBound lx st ts fuel hnh hfuel).1
+
+/-- non-vacuity: `#define f(x) x f` with `f(1)(2)` — a function-like macro whose expansion ends in its own name, followed
+    by more input: the hypothesis holds, the bound is a concrete number, and with that much fuel the model answers
+    `1 f(2)` -/
+example :
+    let defs : List (String × Macro) := [("f", .fn ["x"] none [tk "x", tk "f"])]
+    let ts : List Tok := [tk "f", tk "(" .punct, tk "1" .num, tk ")" .punct, tk "(" .punct, tk "2" .num, tk ")" .punct]
+    NoHash ts ∧ fuelBound defs ts = 477734946799221833229035410333259818857 ∧
+    (expand (fuelBound defs ts) defs ts).map (·.map (·.text)) = .ok ["1", "f", "(", "2", ")"] := by decide +kernel
+
+/-- **C09 (termination), size of the output.**  Under the same hypotheses the output has at most `fuelBound defs input`
+    tokens (the bound also limits what an expansion can produce, not only how long it takes). -/
+theorem C09_terminates_output (lx : String → LexOne) (st : St) (ts : List Tok) (fuel : Nat)
+    (hnh : NoHash ts) (hfuel : fuelBound st.defs ts ≤ fuel) (out : List Tok) (st' : St)
+    (h : preprocess2 lx fuel st ts = .ok (out, st')) :
+    out.length ≤ fuelBound st.defs ts :=
+  (preprocess2_fuelBound lx st ts fuel hnh hfuel).2 out st' h
+
+/-- non-vacuity: `#define d(x) x x` duplicates its argument — `d(d(a))` gives four tokens -/
+example : (expand 50 [("d", .fn ["x"] none [tk "x", tk "x"])]
+      [tk "d", tk "(" .punct, tk "d", tk "(" .punct, tk "a", tk ")" .punct, tk ")" .punct]).map (·.map (·.text))
+    = .ok ["a", "a", "a", "a"] := by decide
+
+/-- the former `C09_terminates_Statement`, now a theorem: there is a bound, computed from the table and the input alone,
+    within which `preprocess2` finishes for *every* table -/
+theorem C09_terminates_bound_exists :
+    ∃ bound : List (String × Macro) → List Tok → Nat,
+      ∀ (lx : String → LexOne) (st : St) (ts : List Tok) (fuel : Nat), NoHash ts → bound st.defs ts ≤ fuel →
+        preprocess2 lx fuel st ts ≠ .error .fuel :=
+  ⟨fuelBound, C09_terminates⟩
+
+/-- `bound(defs, input)`: the sharper fuel bound for an object-like table (`L` = longest replacement list,
     a token that still has `r` macros outside its hide set costs at most `1 + L + L² + … + Lʳ`) -/
 def bound (defs : List (String × Macro)) (ts : List Tok) : Nat := need (defs.map (·.1)) (bodyBound defs) ts
 
-/-- **C09 (termination), full statement**: there is a bound, computed from the table and the input alone, within
-    which `preprocess2` finishes (with output or a diagnostic) for *every* table. -/
-def C09_terminates_Statement : Prop :=
-  ∃ bound : List (String × Macro) → List Tok → Nat,
-    ∀ (lx : String → LexOne) (st : St) (ts : List Tok) (fuel : Nat), NoHash ts → bound st.defs ts ≤ fuel →
-      preprocess2 lx fuel st ts ≠ .error .fuel
-
-/-- **C09 (termination), proved for object-like definition sets** (built-in macros included): the multiset measure
+/-- **C09 (termination), sharper bound for object-like definition sets** (built-in macros included): the multiset measure
     — every application replaces a token by at most `L` tokens that each have one more macro in their hide set —
-    gives the explicit bound `bound defs ts`.  OPEN: tables with function-like macros (the hide set of an expansion
-    is then the *intersection* with the hide set of the `)`, which can be smaller than the name's, and arguments are
-    pre-expanded recursively); stated as `C09_terminates_Statement`. -/
+    gives the bound `bound defs ts`, singly exponential in the number of macros (against the tower of `fuelBound`,
+    which `C09_terminates` needs because a function-like expansion can be as long as its pre-expanded arguments). -/
 theorem C09_terminates_partial (lx : String → LexOne) (st : St) (ts : List Tok) (fuel : Nat)
     (hobj : ObjOnly st.defs) (hnh : NoHash ts) (hfuel : bound st.defs ts ≤ fuel) :
     preprocess2 lx fuel st ts ≠ .error .fuel :=
